@@ -24,6 +24,8 @@ static void script_h(int HARNESS_, int id, int slot) {
         size_t n = polyseed_encode(s, polyseed_get_lang(3), (polyseed_coin)id, ph); Tbuf(slot, ph, n + 1);
         r = polyseed_decode(ph, (polyseed_coin)id, &l, &s2); T(slot, (uint64_t)r);
         if (r == 0) { polyseed_store(s2, st); Tbuf(slot, st, 32); T(slot, (uint64_t)lang_index(l)); polyseed_free(s2); }
+        /* the same phrase with a doubled space: a malformed phrase takes the error path */
+        { char bad[PSTR + 2]; char *sp = strchr(ph, ' '); size_t k = sp ? (size_t)(sp - ph) : 0; memcpy(bad, ph, k + 1); bad[k + 1] = ' '; strcpy(bad + k + 2, ph + k + 1); s2 = NULL; r = polyseed_decode(bad, (polyseed_coin)id, &l, &s2); T(slot, (uint64_t)r); if (r == 0) polyseed_free(s2); }
         polyseed_free(s);
     } else if (HARNESS_ == 2) {          /* load, crypt, keygen, encode (Japanese), decode_explicit, free */
         r = polyseed_load(PRE_ST[id], &s); T(slot, (uint64_t)r);
